@@ -7,6 +7,7 @@ from common import *  # noqa
 import datetime
 
 import qstrader.statistics.performance as perf
+TMPROOT = os.path.join(os.path.dirname(os.path.dirname(os.path.dirname(os.path.abspath(__file__)))), 'build', 'tmp')
 from qstrader.statistics.json_statistics import JSONStatistics
 from qstrader.statistics.tearsheet import TearsheetStatistics
 
@@ -109,6 +110,27 @@ def run(c):
                  'monthly': [[list(k) if isinstance(k, tuple) else [k], num(v)] for k, v in j['monthly_agg_returns']],
                  'yearly': [[[k] if not isinstance(k, tuple) else list(k), num(v)] for k, v in j['yearly_agg_returns']]},
     }
+    # the Highcharts-shaped copies of the aggregates, and the exported file
+    res['json']['monthly_hc'] = [[int(m_), int(y_), num(v)] for m_, y_, v in j['monthly_agg_returns_hc']]
+    res['json']['yearly_hc'] = [num(v) for v in j['yearly_agg_returns_hc']]
+    try:
+        import json as _json2
+        import tempfile as _tf
+        import shutil as _sh
+        os.makedirs(TMPROOT, exist_ok=True)
+        d_ = _tf.mkdtemp(prefix='stats_', dir=TMPROOT)
+        try:
+            fn = os.path.join(d_, 'out.json')
+            obj = JSONStatistics(df.copy(), alloc, periods=P, output_filename=fn)
+            obj.to_file()
+            on_disk = _json2.load(open(fn))
+            res['file'] = 'same' if _json2.dumps(on_disk, sort_keys=True) == _json2.dumps(_json2.loads(_json2.dumps(obj.statistics)), sort_keys=True) else 'the exported file differs from the statistics dictionary'
+            sf = on_disk['strategy']
+            res['file_monthly_hc'] = [[int(m_), int(y_), num(v)] for m_, y_, v in sf['monthly_agg_returns_hc']]
+        finally:
+            _sh.rmtree(d_, ignore_errors=True)
+    except Exception as e:
+        res['file'] = 'raised ' + type(e).__name__
     # two statistics objects alive at once: building the second must leave what the first one reports untouched
     try:
         import copy as _copy
